@@ -145,6 +145,12 @@ pub fn generate(_cfg: &RunCfg, _out: &mut Outcome) -> Scenario {
                 };
                 ("padding-variant", Some(format!("Basic {v}").into_bytes()))
             }
+            6 if t::chance(1, 4) => {
+                // user and password joined by something that is not a colon
+                let (u, p) = t::pick(&pairs).clone();
+                let sep = t::pick(&[";", " ", "|", "\u{0}", "X", "/", "="]);
+                ("wrong-separator", Some(format!("Basic {}", STANDARD.encode(format!("{u}{sep}{p}"))).into_bytes()))
+            }
             6 if good.chars().all(|c| (c as u32) <= 0xff) && good.chars().any(|c| (c as u32) >= 0x80) && t::chance(2, 3) => {
                 // the configured pair in another charset (ISO-8859-1, one byte per character): not UTF-8, not the base64 of
                 // `user:password` as configured
